@@ -2,7 +2,7 @@
 From Coq Require Import List NArith ZArith Bool.
 From SK Require Import lib.LGraph lib.Mono.
 From SK Require model.C06_Model model.C11_Model.
-From SK Require Import model.C03_Model model.C05_Model proof.C05_Proof proof.C05_Glue proof.C05_Pipe proof.C05_Prep proof.C05_Comp proof.C05_Main proof.C05_Order proof.C05_Sub proof.C05_Set proof.C05_Result proof.C05_AllStrat proof.C05_PrepOrder proof.C05_Final proof.C05_Default proof.C05_Rewrite proof.C05_Capstone proof.C05_Refuted proof.C05_Cap proof.C05_AnyCap proof.C05_Partial proof.C05_PartialOrder proof.C05_PartialCap proof.C05_Prefilter proof.C05_PrefilterOrder.
+From SK Require Import model.C03_Model model.C05_Model proof.C05_Proof proof.C05_Glue proof.C05_Pipe proof.C05_Prep proof.C05_Comp proof.C05_Main proof.C05_Order proof.C05_Sub proof.C05_Set proof.C05_Result proof.C05_AllStrat proof.C05_PrepOrder proof.C05_Final proof.C05_Default proof.C05_Rewrite proof.C05_Capstone proof.C05_Refuted proof.C05_Cap proof.C05_AnyCap proof.C05_Partial proof.C05_PartialOrder proof.C05_PartialCap proof.C05_Prefilter proof.C05_PrefilterOrder proof.C05_Enum.
 From SK Require Import lib.C06_Spec proof.C06_Comp.
 From SK Require proof.C11_Dedup.
 From Coq Require Import Permutation.
@@ -497,3 +497,40 @@ Lemma thm_result_set_invariant_exhaustive_any_options_checked :
     (forall T, In T (glued_of_pf pref 0%N host0 p0) -> exists T', In T' (glued_of_pf pref 0%N host p) /\ obs_eq (relabel pi T) T') /\
     (forall T', In T' (glued_of_pf pref 0%N host p) -> exists T, In T (glued_of_pf pref 0%N host0 p0) /\ obs_eq (relabel pi T) T').
 Proof. intros TH pref sg pi Hs Hp host0 host p0 p. apply glued_set_any_options_checked; assumption. Qed.
+
+(** ** independence of the matcher's enumeration order (proof/C05_Enum.v) *)
+Lemma thm_result_set_independent_of_enumeration :
+  (forall host rc m, glue1 host rc m = match glue host rc m with Some T => [T] | None => [] end) /\
+  (forall (host : hostg) (rc : its) (raw raw' : list mapping),
+     NoDup (node_ids rc) -> simple_edgesb (gedges rc) = true ->
+     (forall a b x, In (a, b, x) (gedges rc) -> In a (node_ids rc) /\ In b (node_ids rc)) ->
+     (forall m, In m raw -> NoDup (map fst m) /\ NoDup (map snd m) /\
+        forall q h, In (q, h) m -> (exists pn, label rc q = Some pn) /\ (exists hn, label host h = Some hn)) ->
+     (forall m, In m raw' -> NoDup (map fst m) /\ NoDup (map snd m) /\
+        forall q h, In (q, h) m -> (exists pn, label rc q = Some pn) /\ (exists hn, label host h = Some hn)) ->
+     (forall m, In m raw -> exists m', In m' raw' /\ forall ph, In ph m <-> In ph m') ->
+     (forall m', In m' raw' -> exists m, In m raw /\ forall ph, In ph m' <-> In ph m) ->
+     forall T, In T (flat_map (glue1 host rc) (prune rc raw)) ->
+       exists T', In T' (flat_map (glue1 host rc) (prune rc raw')) /\ obs_eq T T') /\
+  (forall (TH : Thr) strat host p, p_flag p = false ->
+     glued_of strat host p = flat_map (glue1 host (p_rc p)) (prune (p_rc p) (raw_of strat host p))) /\
+  (forall (TH : Thr) (host : hostg) (p : prepared) (raw' : list mapping),
+     side_okb host p = true ->
+     (forall m, In m (raw_of 0%N host p) -> exists m', In m' raw' /\ forall ph, In ph m <-> In ph m') ->
+     (forall m', In m' raw' -> exists m, In m (raw_of 0%N host p) /\ forall ph, In ph m' <-> In ph m) ->
+     (forall m, In m raw' -> NoDup (map fst m) /\ NoDup (map snd m)) ->
+     (forall T, In T (glued_of 0%N host p) ->
+        exists T', In T' (flat_map (glue1 host (p_rc p)) (prune (p_rc p) raw')) /\ obs_eq T T') /\
+     (forall T', In T' (flat_map (glue1 host (p_rc p)) (prune (p_rc p) raw')) ->
+        exists T, In T (glued_of 0%N host p) /\ obs_eq T' T)).
+Proof.
+  split; [reflexivity|]. split.
+  - intros host rc raw raw' Rn Rs Rc Hok Hok' L1 L2.
+    apply (glued_independent_of_enumeration host rc raw raw'); try assumption.
+    + split; [exact Rn|split; [exact Rs|exact Rc]].
+    + split; assumption.
+  - split; [intros TH strat host p; apply glued_of_glue1|].
+    intros TH host p raw' S L1 L2 Hnd. apply glued_any_listing; try assumption.
+    + apply side_okb_ok. exact S.
+    + split; assumption.
+Qed.
